@@ -60,6 +60,9 @@ func (c *RowCollector) CollectResolvedRow(errChan chan<- error, origChan <-chan 
 				// without primary key, rows are sorted and deduplicated on all
 				// columns, so the sorter needs to know the columns
 				c.resolvedRows.Columns = c.cd.Names
+				// rows are collected in the merged column layout, in which the
+				// primary key columns come first wherever they sit in the base table
+				c.resolvedRows.PK = c.cd.OtherPK[0]
 			} else if m.Resolved {
 				err := c.SaveResolvedRow(m.PK, m.ResolvedRow)
 				if err != nil {
@@ -88,6 +91,18 @@ func (c *RowCollector) Columns(removedCols map[int]struct{}) []string {
 
 func (c *RowCollector) PK() []string {
 	return c.cd.PK()
+}
+
+// baseLayoutIsPrefix reports whether every base column sits at the same
+// position in the merged layout (the merged layout only appends columns). Only
+// then can an untouched base row be added as it is.
+func (c *RowCollector) baseLayoutIsPrefix() bool {
+	for i, j := range c.cd.BaseIdx {
+		if i != j {
+			return false
+		}
+	}
+	return true
 }
 
 func (c *RowCollector) collectRowsThatStayedTheSame() error {
@@ -123,6 +138,9 @@ func (c *RowCollector) collectRowsThatStayedTheSame() error {
 			}
 			if ok {
 				continue
+			}
+			if !c.baseLayoutIsPrefix() {
+				row = c.cd.RearrangeBaseRow(row)
 			}
 			err = c.resolvedRows.AddRow(row)
 			if err != nil {
